@@ -1315,6 +1315,14 @@ class Interp:
                     base.abs_setitem(self, idx, v)
                 return
             if contains_abstract([idx]):
+                if isinstance(base, dict):
+                    # keys that hold abstract values: equal when they are the same value (strings: same derivation
+                    # from the same source), so a later lookup with the same key finds the entry
+                    try:
+                        base[idx] = v
+                        return
+                    except TypeError:
+                        pass
                 self.note('store-with-abstract-index')
                 return
             try:
